@@ -51,6 +51,12 @@ def seeds():
         out.append(("format:%d" % i, "program p\n100 format(%s)\nend program p\n" % s))
     out.append(("use_dtio", "module m\n  use a, only: read(formatted), operator(.x.), b => c\nend module m\n"))
     out.append(("hollerith", "program p\n100 format(1x, 5Hhello, i3)\nend program p\n"))
+    out.append(("block_data", "block data bd\n  common /c/ a\n  data a /1/\nend block data bd\n"))
+    out.append(("formats", "program p\n100 format(1x, e12.4, g10.3, es12.4e2, 1p, f6.2, 3(i2, 1x), 'lit', /, a)\nend program p\n"))
+    out.append(("cray_pointer", "program p\n  pointer (ptr, x), (p2, y(10))\nend program p\n"))
+    out.append(("select_case", "program p\n  select case (i)\n  case (1)\n    x = 1\n  case (2:5)\n    x = 2\n  case default\n    x = 3\n  end select\nend program p\n"))
+    out.append(("placeholders", "program p\n  x = (a + 1) * f(b, (c)) + 1.0e-3\nend program p\n"))
+    out.append(("typed", "module m\n  type, extends(base) :: t\n    procedure(f), pointer, nopass :: p => null()\n  contains\n    procedure :: q => r\n    generic :: operator(+) => q\n    final :: fin\n  end type t\nend module m\n"))
     out.append(("fixed", "      subroutine f(a)\nC     comment\n      integer a\n      a = 1 +\n     & 2\n   10 continue\n      end\n"))
     return out
 
